@@ -411,8 +411,9 @@ class MappingSchema(AbstractMappingSchema, Schema):
 
         nested_set(self.mapping, tuple(reversed(parts)), normalized_column_mapping)
         new_trie([parts], self.mapping_trie)
-        self._find_cache.pop((normalized_table, True), None)
-        self._find_cache.pop((normalized_table, False), None)
+        # A new or updated table can change how partially qualified names resolve
+        # (new columns, or a name that is now ambiguous), so no cached result is safe.
+        self._find_cache.clear()
 
     def column_names(
         self,
